@@ -5,9 +5,78 @@ import (
 	"fmt"
 	"strings"
 
+	"github.com/libsv/go-bt/v2/bscript/interpreter"
+
 	"verif/harness/common"
 	"verif/harness/interpgen"
 )
+
+// drifter is a second scribbling debugger. interpgen.Recorder{Scribble: true} XORs every byte with 0xff, which
+// is its own inverse: the engine fires an even number of callbacks between the moment an item is pushed and
+// the BeforeStackPop preceding its removal, so a stack that is only ever read through pops (the alt stack)
+// would be restored by the time it is read even if State() aliased it. drifter adds 1 to every byte instead
+// (no fixed point, period 256), so any aliasing that survives to a read is visible.
+type drifter struct {
+	rec *interpgen.Recorder
+	f   func(*interpreter.State)
+}
+
+// driftOpData changes only the push data of the parsed opcodes in State.Scripts (the bytes that become stack
+// items when the opcode runs). State() copies the ParsedOpcode structs but not the Data slices inside them.
+func driftOpData(s *interpreter.State) {
+	if s == nil {
+		return
+	}
+	for i := range s.Scripts {
+		for j := range s.Scripts[i] {
+			for k := range s.Scripts[i][j].Data {
+				s.Scripts[i][j].Data[k]++
+			}
+		}
+	}
+}
+
+func drift(s *interpreter.State) {
+	if s == nil {
+		return
+	}
+	for _, st := range [][][]byte{s.DataStack, s.AltStack, s.ElseStack, s.SavedFirstStack} {
+		for i := range st {
+			for j := range st[i] {
+				st[i][j]++
+			}
+		}
+	}
+	for i := range s.CondStack {
+		s.CondStack[i] += 3
+	}
+	for i := range s.Scripts {
+		for j := range s.Scripts[i] {
+			s.Scripts[i][j] = interpreter.ParsedOpcode{}
+		}
+	}
+	s.ScriptIdx, s.OpcodeIdx, s.NumOps, s.LastCodeSeparatorIdx, s.Flags = s.ScriptIdx+1, s.OpcodeIdx+1, s.NumOps+1, s.LastCodeSeparatorIdx+1, ^s.Flags
+}
+func (d *drifter) BeforeExecute(s *interpreter.State)       { d.rec.BeforeExecute(s); d.f(s) }
+func (d *drifter) AfterExecute(s *interpreter.State)        { d.rec.AfterExecute(s); d.f(s) }
+func (d *drifter) BeforeStep(s *interpreter.State)          { d.rec.BeforeStep(s); d.f(s) }
+func (d *drifter) AfterStep(s *interpreter.State)           { d.rec.AfterStep(s); d.f(s) }
+func (d *drifter) BeforeExecuteOpcode(s *interpreter.State) { d.rec.BeforeExecuteOpcode(s); d.f(s) }
+func (d *drifter) AfterExecuteOpcode(s *interpreter.State)  { d.rec.AfterExecuteOpcode(s); d.f(s) }
+func (d *drifter) BeforeScriptChange(s *interpreter.State)  { d.rec.BeforeScriptChange(s); d.f(s) }
+func (d *drifter) AfterScriptChange(s *interpreter.State)   { d.rec.AfterScriptChange(s); d.f(s) }
+func (d *drifter) AfterSuccess(s *interpreter.State)        { d.rec.AfterSuccess(s); d.f(s) }
+func (d *drifter) AfterError(s *interpreter.State, e error) { d.rec.AfterError(s, e); d.f(s) }
+func (d *drifter) BeforeStackPush(s *interpreter.State, b []byte) {
+	d.rec.BeforeStackPush(s, b)
+	d.f(s)
+}
+func (d *drifter) AfterStackPush(s *interpreter.State, b []byte) {
+	d.rec.AfterStackPush(s, b)
+	d.f(s)
+}
+func (d *drifter) BeforeStackPop(s *interpreter.State)          { d.rec.BeforeStackPop(s); d.f(s) }
+func (d *drifter) AfterStackPop(s *interpreter.State, b []byte) { d.rec.AfterStackPop(s, b); d.f(s) }
 
 // lifecycle automaton: the same states and transitions as coq/model/Debug.v (lstate / lstep), extended
 // with the stack push/pop callbacks, which may only occur while an opcode runs (after BO), at the end of a
@@ -101,14 +170,18 @@ func lifecycleOnly(tr []string) string {
 	return strings.TrimSpace(sb.String())
 }
 
-// emit19: none / recording / scribbling; verdicts, traces and snapshots must coincide.
+// emit19: none / recording / scribbling (xor) / scribbling (+1) / opcode-data scribbling; verdicts, traces and snapshots must coincide.
 func emit19(p *interpgen.Program) {
 	plain, plainMsg := interpgen.RunPlain(p)
 	rec := interpgen.RunWith(p, &interpgen.Recorder{Full: true})
 	scr := interpgen.RunWith(p, &interpgen.Recorder{Full: true, Scribble: true})
+	drec := &interpgen.Recorder{Full: true}
+	dri := interpgen.RunBuilt(interpgen.Build(p, &drifter{drec, drift}), drec)
+	orec := &interpgen.Recorder{Full: true}
+	opd := interpgen.RunBuilt(interpgen.Build(p, &drifter{orec, driftOpData}), orec)
 	c.Tally(p.Kind + "/" + rec.Obs)
-	if plain == "panic" || rec.Obs == "panic" || scr.Obs == "panic" {
-		c.Violate("Engine.Execute/panic", plainMsg+rec.Err+scr.Err, p)
+	if plain == "panic" || rec.Obs == "panic" || scr.Obs == "panic" || dri.Obs == "panic" {
+		c.Violate("Engine.Execute/panic", plainMsg+rec.Err+scr.Err+dri.Err, p)
 	}
 	if plain != rec.Obs || plainMsg != rec.Err {
 		c.Violate("Debugger/recording-changes-verdict-or-error", fmt.Sprintf("%s %q vs %s %q", plain, plainMsg, rec.Obs, rec.Err), p)
@@ -118,6 +191,18 @@ func emit19(p *interpgen.Program) {
 	}
 	if strings.Join(rec.Trace, " ") != strings.Join(scr.Trace, " ") || rec.Hash != scr.Hash {
 		c.Violate("Debugger/scribbling-changes-callbacks-or-snapshots", "traces or snapshots differ between a passive and a scribbling debugger", p)
+	}
+	if plain != dri.Obs || plainMsg != dri.Err {
+		c.Violate("Debugger/scribbling-changes-verdict-or-error", fmt.Sprintf("(drifting) %s %q vs %s %q", plain, plainMsg, dri.Obs, dri.Err), p)
+	}
+	if strings.Join(rec.Trace, " ") != strings.Join(dri.Trace, " ") || rec.Hash != dri.Hash {
+		c.Violate("Debugger/scribbling-changes-callbacks-or-snapshots", "traces or snapshots differ between a passive and a drifting (+1 on every byte) debugger", p)
+	}
+	if opd.Obs == "panic" {
+		c.Violate("Engine.Execute/panic", opd.Err, p)
+	}
+	if plain != opd.Obs || plainMsg != opd.Err || strings.Join(rec.Trace, " ") != strings.Join(opd.Trace, " ") || rec.Hash != opd.Hash {
+		c.Violate("Debugger/snapshot-opcode-data-aliases-engine", fmt.Sprintf("changing ParsedOpcode.Data bytes inside State.Scripts changes the run: %s %q vs %s %q (or the callbacks / snapshots differ)", plain, plainMsg, opd.Obs, opd.Err), p)
 	}
 	if ok, why := lifecycleOK(rec.Trace); !ok {
 		c.Violate("Debugger/callback-order", why+": "+strings.Join(rec.Trace, " "), p)
@@ -167,8 +252,8 @@ func runC19() {
 	// the combined stack limit from both sides in one program (pre-genesis, 1000 items): 3 + 3*332 + 1 = 1000
 	// items is accepted (the step completes), the 1001st is a stack overflow detected after AfterExecuteOpcode —
 	// the one error that is raised by Step itself between two callbacks
-	over := append(bytes.Repeat([]byte{0x00}, 3), bytes.Repeat([]byte{0x6f}, 332)...)
-	over = append(over, 0x00, 0x00)
+	over := append(bytes.Repeat([]byte{0x51}, 3), bytes.Repeat([]byte{0x6f}, 332)...)
+	over = append(over, 0x51, 0x51)
 	emit19((&interpgen.Program{Unlock: []byte{}, Lock: over, Flags: 0, Kind: "lifecycle-stack-limit"}).Fix())
-	c.Stats.Rule = "the interpreter-equivalence programs (opcode x operand matrix sample, grammar-generated programs, P2SH pairs, both eras, sampled flags), each run three ways: no debugger, a recording debugger, a debugger that overwrites every field and every stack byte of every State it is handed; verdict AND error text, callback sequence and all snapshots must coincide; the callback sequence is checked against the lifecycle grammar in Go and, projected to lifecycle events, compared with the model's trace in Coq. distinct = distinct program; one program per shape of the lifecycle grammar and one reaching the combined stack limit exactly and exceeding it by one are added. non-trivial = at least one step completed"
+	c.Stats.Rule = "the interpreter-equivalence programs (opcode x operand matrix sample, grammar-generated programs, P2SH pairs, both eras, sampled flags), each run five ways: no debugger, a recording debugger, two debuggers that overwrite every field and every stack byte of every State they are handed (XOR 0xff, and +1 which is not self-inverse) and one that changes the push data of the parsed opcodes in State.Scripts; verdict AND error text, callback sequence and all snapshots must coincide; the callback sequence is checked against the lifecycle grammar in Go and, projected to lifecycle events, compared with the model's trace in Coq. distinct = distinct program; one program per shape of the lifecycle grammar and one reaching the combined stack limit exactly and exceeding it by one are added. non-trivial = at least one step completed"
 }
